@@ -609,6 +609,11 @@ func (m *Macaroon) Expiration() time.Time {
 	ret := maxTime
 
 	for _, vw := range GetCaveats[*ValidityWindow](&m.UnsafeCaveats) {
+		// time.Unix wraps around beyond maxTime
+		if vw.NotAfter >= maxTime.Unix() {
+			continue
+		}
+
 		na := time.Unix(vw.NotAfter, 0)
 		if na.Before(ret) {
 			ret = na
